@@ -58,6 +58,21 @@ def slots(repo, run):
             run.report("C06.1", ITY, rets[0] if rets else fn, why)
 
 
+def _fsal_explicit_guard(test):
+    """is the boolean test equivalent to  is_fsal and is_explicit ?"""
+    import itertools
+    from ..sym import bool_atoms, eval_bool
+    tree, leaves = bool_atoms(test)
+    atoms = sorted(leaves)
+    if not set(atoms) <= {"self.is_fsal", "self.is_explicit", "self.is_implicit"}:
+        return False
+    for fs, ex in itertools.product((False, True), repeat=2):
+        val = {"self.is_fsal": fs, "self.is_explicit": ex, "self.is_implicit": not ex}
+        if eval_bool(tree, {k: val[k] for k in atoms}) != (fs and ex):
+            return False
+    return True
+
+
 def end_slopes(repo, run):
     rid = run.rule("C06.6", "end slopes are the right-hand side at the step ends: initial_rhs = rhs(t0, y0), final_rhs = rhs(t0 + dTime, y0 + dState) "
                             "(or the FSAL last-stage slope) in both integrator families", floor=4)
@@ -79,10 +94,14 @@ def end_slopes(repo, run):
             ok = any(isinstance(s2, ast.Assign) and isinstance(s2.value, ast.Call) and (dotted(s2.value.func) or "").endswith("compute_step") and
                      isinstance(s2.targets[0], ast.Tuple) and len(s2.targets[0].elts) == 3 and src(s2.targets[0].elts[2]) == v.id for s2 in step.body)
             iff = st._parent
-            ok = ok and isinstance(iff, ast.If) and "is_fsal" in src(iff.test)
-            run.judged(rid, "RK step FSAL slope: %s" % src(st), ok=ok)
+            okg = isinstance(iff, ast.If) and st in iff.body and _fsal_explicit_guard(iff.test)
+            run.judged(rid, "RK step FSAL slope: %s under `%s`" % (src(st), src(iff.test) if isinstance(iff, ast.If) else None), ok=ok and okg)
             if not ok:
                 run.report("C06.6", ITY, st, "final_rhs is taken from a value that is not the last-stage slope of an FSAL table")
+            elif not okg:
+                run.report("C06.6", ITY, st, "the last-stage slope of the explicit predictor sweep is used as the end slope outside `is_fsal and is_explicit`: for an implicit table "
+                                             "whose last row equals b (Radau IIA, Lobatto IIIA/IIIC, backward Euler, ...) it is the slope at the PREDICTED end state, not at the "
+                                             "solved y0 + dState, so pieces do not end with the right-hand side at the recorded state")
         else:
             run.judged(rid, "RK step final slope: %s" % src(st), ok=False)
             run.report("C06.6", ITY, st, "final_rhs is not an evaluation of the right-hand side")
